@@ -10,6 +10,7 @@ import (
 	"os"
 	"os/exec"
 	"path/filepath"
+	"regexp"
 	"runtime"
 	"sort"
 	"strings"
@@ -584,9 +585,107 @@ func checkC11(rc *Run) error {
 	wg.Wait()
 	rc.Sample(M{"family": "anchors / aliases / merge keys incl. ill-typed merge sources", "example": M{"argv": []string{"yq", "explode(.)"}, "stdin": illdocs[0]}})
 
+	// (7) truncated and corrupted texts of every other input format: the texts the codec specification writes
+	// (Gen_Codecs: base64, uri, csv, tsv, properties, xml, lua, toml), each also with one line removed, one markup
+	// tag / bracketed header removed, two neighbouring lines swapped, and cut at every position (short texts) or line end
+	var ctexts []struct{ f, text string }
+	if _, err := RunTLC(rc, TLCOpts{Name: "codecs", Module: "Gen_Codecs", Cfg: "CONSTANTS\n Lanes = 16\nINIT Init\nNEXT Next\nCHECK_DEADLOCK FALSE\n", Timeout: 10 * time.Minute,
+		OnVector: func(js []byte) {
+			var c codecCase
+			if json.Unmarshal(js, &c) != nil {
+				return
+			}
+			mu.Lock()
+			ctexts = append(ctexts, struct{ f, text string }{baseOf(c.F), runesOf(c.Text)})
+			if len(c.Alt) > 0 {
+				ctexts = append(ctexts, struct{ f, text string }{baseOf(c.F), runesOf(c.Alt)})
+			}
+			mu.Unlock()
+		}}); err != nil {
+		return err
+	}
+	if len(ctexts) < 500 {
+		return machinery("Gen_Codecs produced %d texts", len(ctexts))
+	}
+	sort.Slice(ctexts, func(i, j int) bool { return ctexts[i].f+ctexts[i].text < ctexts[j].f+ctexts[j].text })
+	cjobs := make(chan fjob, 256)
+	for w := 0; w < runtime.NumCPU(); w++ {
+		wg.Add(1)
+		go func() {
+			defer wg.Done()
+			for j := range cjobs {
+				p := runProc(dir, j.stdin, j.args...)
+				note(j.key)
+				if p.Hang {
+					reportCrash("hang", j.args[0], fmt.Sprintf("yq %s does not terminate on %q", strings.Join(j.args, " "), j.stdin), j.desc)
+				} else if p.crashed() {
+					reportCrash("panic", panicSite([]byte(p.Stderr)), fmt.Sprintf("yq %s on %q aborts: %s", strings.Join(j.args, " "), j.stdin, firstLine(p.Stderr)), j.desc)
+				}
+			}
+		}()
+	}
+	reTag := regexp.MustCompile(`<[^<>]*>|\[\[?[^\[\]\n]*\]\]?`)
+	seenText := map[string]bool{}
+	nCorrupt := 0
+	for i, ct := range ctexts {
+		if !rc.Thorough() && !inShard(i, 8, int(rc.Seed%8+8)%8) {
+			continue
+		}
+		variants := []string{ct.text}
+		lines := strings.SplitAfter(ct.text, "\n")
+		for k := range lines { // one line removed; two neighbouring lines swapped; cut at the line end
+			variants = append(variants, strings.Join(append(append([]string{}, lines[:k]...), lines[k+1:]...), ""))
+			variants = append(variants, strings.Join(lines[:k], ""))
+			if k+1 < len(lines) {
+				sw := append([]string{}, lines...)
+				sw[k], sw[k+1] = sw[k+1], sw[k]
+				variants = append(variants, strings.Join(sw, ""))
+			}
+		}
+		for k := range lines { // cut at the front (a text that starts in the middle)
+			variants = append(variants, strings.Join(lines[k:], ""))
+		}
+		for _, loc := range reTag.FindAllStringIndex(ct.text, -1) { // one tag / header removed; the text from a tag on; a comment put in
+			variants = append(variants, ct.text[:loc[0]]+ct.text[loc[1]:], ct.text[loc[0]:], ct.text[loc[1]:])
+			if ct.f == "xml" {
+				variants = append(variants, ct.text[:loc[0]]+"<!-- c -->"+ct.text[loc[0]:], ct.text[:loc[1]]+"<!-- c -->"+ct.text[loc[1]:], ct.text[loc[0]:]+"<!-- c -->")
+			}
+		}
+		// the head of this text continued by the tail of the next text of the same format (line boundaries)
+		if i+1 < len(ctexts) && ctexts[i+1].f == ct.f && len(lines) <= 10 {
+			other := strings.SplitAfter(ctexts[i+1].text, "\n")
+			if len(other) <= 10 {
+				for k := 1; k <= len(lines); k++ {
+					for m := 0; m < len(other); m++ {
+						variants = append(variants, strings.Join(lines[:k], "")+strings.Join(other[m:], ""))
+					}
+				}
+			}
+		}
+		if len(ct.text) <= 40 {
+			for n := 1; n < len(ct.text); n++ {
+				variants = append(variants, ct.text[:n])
+			}
+		}
+		flag := fmtFlag[ct.f]
+		for _, v := range variants {
+			key := ct.f + "\x00" + v
+			if seenText[key] {
+				continue
+			}
+			seenText[key] = true
+			nCorrupt++
+			cjobs <- fjob{[]string{"-p=" + flag, "-o=json", "-I0", "."}, []byte(v), "corrupt:" + key, M{"argv": []string{"yq", "-p=" + flag, "-o=json", "-I0", "."}, "stdin": v}}
+		}
+	}
+	close(cjobs)
+	wg.Wait()
+	rc.Set("corrupted_format_texts", nCorrupt)
+	rc.Sample(M{"family": "truncated / corrupted texts of the codec specification", "example": M{"argv": []string{"yq", "-p=toml", "-o=json", "."}, "stdin": "[[t]]\n[t.k1]\n"}})
+
 	rc.Set("evaluations", evaluations)
 	rc.Set("distinct_nontrivial", len(distinct))
-	rc.Set("rule", "cases = (a) every index/slice bound combination of the specification's bounds table, (b) every vector of the evaluator grammar of Gen_Eval incl. the ones whose outcome the specification leaves open, (c) every token sequence of Gen_Parser (ill-formed included) evaluated on two documents, (d) every model-domain value x input format x output format through the binary, (e) byte prefixes of every rendered input, (f) every document of Gen_Anchors (anchors, aliases, merge keys with alias / list / in-place / ill-typed sources) x 15 reading routes; each executed under a crash/hang monitor (recover + stack for in-process cases, exit status / stderr / 15 s watchdog for the binary); distinct = distinct (expression or argv, input) pairs")
+	rc.Set("rule", "cases = (a) every index/slice bound combination of the specification's bounds table, (b) every vector of the evaluator grammar of Gen_Eval incl. the ones whose outcome the specification leaves open, (c) every token sequence of Gen_Parser (ill-formed included) evaluated on two documents, (d) every model-domain value x input format x output format through the binary, (e) byte prefixes of every rendered input, (g) every text the codec specification writes for base64 / uri / csv / tsv / properties / xml / lua / toml, and each with one line removed, one tag or bracketed header removed, two neighbouring lines swapped, cut short at either end, an XML comment put in, and continued by the tail of the next text of the format, (f) every document of Gen_Anchors (anchors, aliases, merge keys with alias / list / in-place / ill-typed sources) x 15 reading routes; each executed under a crash/hang monitor (recover + stack for in-process cases, exit status / stderr / 15 s watchdog for the binary); distinct = distinct (expression or argv, input) pairs")
 	rc.Set("states", res.Distinct)
 	rc.Assume("arbitrary and mutated byte strings are not generated (a specification cannot enumerate what it does not describe): not claimed")
 	return nil
